@@ -61,7 +61,12 @@ def clear_pending_pop(f: Callable) -> Callable:
     def clear_pending_pop_wrap(self, *args, **kwargs):
         if self.pending_pop:
             self.pending_pop = False
-            self.pop()
+            try:
+                self.pop()
+            except BaseException:
+                # The level has not been removed: do not forget it
+                self.pending_pop = True
+                raise
         return f(self, *args, **kwargs)
     return clear_pending_pop_wrap
 
